@@ -365,6 +365,9 @@ async fn run_relay(plan: RelayPlan) -> RelayObs {
         h2_stream_window: plan.h2_stream_window,
         h2_conn_window: plan.h2_conn_window,
         h1_upload_buffer: plan.h1_upload_buffer,
+        // client_listener_timeout bounds the wait for a session's NEXT request and takes the
+        // tunnels in flight with it (DESIGN.md 13.3, observed): a slow plan must not run into it
+        listener_timeout_us: 30 * 86_400_000_000 + endpoint::FRACTION_US,
         ..EpConfig::default()
     };
     let ep = match endpoint::build(&cfg, endpoint::registry(&cfg)) {
